@@ -388,3 +388,8 @@ package h2
 //@ requires r != nil && r.relay != nil && relayInv(r.relay) && r.relay.encoder != nil && r.relay.enableDebugLogs != nil
 //@ modifies **
 //@ ensures result == nil ==> lastEnq(r.relay) is *queuedHeaderFrame && lastEnq(r.relay).(*queuedHeaderFrame).endStream == streamEnded && lastEnq(r.relay).(*queuedHeaderFrame).streamID == old(r.id)
+
+// The package initialiser establishes the global invariants of this file.
+//@ func init
+//@ property C10 C12
+//@ modifies **
